@@ -155,6 +155,7 @@ func run(c *mc.Ctx, u mc.Unit) {
 		}
 		return true
 	}
+	leavesBefore := len(chain.Leaves())
 	b := uint64(1 + c.Choose(n+2, "reorg-point"))
 	release := func() {}
 	if p.Reader && c.Bool("reader-holds-a-connection-during-the-reorg") {
@@ -169,6 +170,22 @@ func run(c *mc.Ctx, u mc.Unit) {
 	if p.Restart && c.Bool("restart-after-reorg") {
 		a.Restart()
 		c.Witness("restart")
+	}
+	if p.Store == sk.Bridge && len(chain.Leaves()) < leavesBefore && c.Bool("new-fork-block-continues-the-deposit-count-of-the-dropped-fork") {
+		// A node that only ever saw the surviving blocks refuses a deposit whose count is where the DROPPED fork stood
+		// (it is not the next index of its tree); a node that saw the dropped fork must refuse it as well.
+		blk := chain.BlockWithDepositCount(chain.Tip()+1, uint32(leavesBefore))
+		err := a.Process(blk)
+		c.Witness("blocks_continuing_the_dropped_fork_offered")
+		c.NonTrivial()
+		lpb, _ := a.W.GetLastProcessedBlock(nil)
+		c.Obs("history=%v reorg@%d: block %d with deposit count %d (tree has %d leaves) -> %v, last processed %d", p.History, b, blk.Num, leavesBefore, len(chain.Leaves()), err, lpb)
+		if err == nil || lpb != chain.Tip() {
+			c.Failf("bridge/ProcessBlock/accepts-a-deposit-count-that-only-follows-the-dropped-fork", "history %v, reorg at %d (choices %v): the exit tree has %d leaves after the reorg, "+
+				"a block with deposit count %d (the next index of the dropped fork) was answered with err=%v and the last processed block is %d (tip of the surviving chain: %d); "+
+				"a node that never saw the dropped blocks refuses it", p.History, b, c.Choices, len(chain.Leaves()), leavesBefore, err, lpb, chain.Tip())
+		}
+		return
 	}
 	contLen := c.Choose(p.MaxCont+1, "continuation-length")
 	lastKind := ""
